@@ -14,7 +14,7 @@ import (
 // mode chanmap: the real chanmap.Store; after every op the complete state is printed
 func init() {
 	register("chanmap", func(args []string) {
-		opTimeout = 2 * time.Second // store operations are instantaneous; one that does not return has dead-locked
+		opTimeout = 5 * time.Second // store operations are instantaneous; one that does not return has dead-locked
 		runLines(func() func(fs []string) string {
 			s := chanmap.New()
 			chans := map[int]chan struct{}{}
